@@ -12,35 +12,77 @@ PERIODIC = {'PeriodicAnnounce': 'periodic_announce', 'PeriodicGossip': 'periodic
 
 
 def r1_bumps(ctx, f, rep, eff):
-    rep.rule('C13-R1', 'Foca.timer_token is written only in reset, become_disconnected and become_undead, each time as '
-                       'wrapping_add(self.timer_token, 1); every function that writes connection_state to a value other than '
-                       'Connected also bumps the token and clears the probe on every path')
-    w = sorted(eff.writers_of('Foca', 'timer_token'))
-    rep.check(w == ['Foca::become_disconnected', 'Foca::become_undead', 'Foca::reset'], 'C13-R1', 'Foca',
-              'writers of timer_token', construct='writers', facts={'writers': w})
-    n = 0
-    for fn in eff.writers_of('Foca', 'connection_state'):
-        b = f.fn(fn)
-        for p in ctx.paths(f, b, 'none'):
-            if p.end != 'return':
+    rep.rule('C13-R1', 'Foca.timer_token changes only at an epoch boundary and every epoch boundary changes it: each write is '
+                       'wrapping_add(self.timer_token, 1); on every path of every function, leaving the Connected state '
+                       '(a write of connection_state other than Connected, directly or through a private function that '
+                       'only does that part) goes together with exactly one bump and one Probe::clear, and a bump never '
+                       'happens without such a write; entering Connected does not touch the token')
+    tokw = set(eff.writers_of('Foca', 'timer_token'))
+    conw = set(eff.writers_of('Foca', 'connection_state'))
+    rep.check(tokw <= conw | {c for w in conw for c in eff.callers(w)}, 'C13-R1', 'Foca',
+              'writers of timer_token are functions that write connection_state or their callers', construct='writers',
+              facts={'writers': sorted(tokw)})
+    leave_only = set()      # private functions that leave Connected without bumping: their callers must do it
+    results = {}
+    for _round in range(3):
+        results = {}
+        todo = tokw | conw | {c for lo in leave_only for c in eff.callers(lo)}
+        for fn in sorted(todo):
+            bs = f.by_name.get(fn, [])
+            if len(bs) != 1 or f.is_unknown_helper(bs[0]) or bs[0].kind == 'Closure':
                 continue
-            calls = {c['id']: c for c in p.calls()}
-            cs = [x for x in p.writes() if x['place'] == q.self_field('connection_state')]
-            leaving = [x for x in cs if not q.is_variant(x['value'], 'ConnectionState', 'Connected')]
-            tw = [x for x in p.writes() if x['place'] == q.self_field('timer_token')]
-            for t in tw:
-                v = t['value']
-                good = v[0] == 'call' and calls[v[1]]['res'] == 'core::num::<impl u8>::wrapping_add' and \
-                    q.is_self_field_load(calls[v[1]]['args'][0], 'timer_token') and calls[v[1]]['args'][1][2] == 1
-                rep.check(good, 'C13-R1', fn, 'token := wrapping_add(token, 1)', site=t['span'], construct='bump-value')
-            if leaving:
-                n += 1
+            b = bs[0]
+            rows = []
+            for p in ctx.paths(f, b, 'none'):
+                if p.end != 'return':
+                    continue
+                calls = {c['id']: c for c in p.calls()}
+                cs = [x for x in p.writes() if x['place'] == q.self_field('connection_state')]
+                leaving = [x for x in cs if not q.is_variant(x['value'], 'ConnectionState', 'Connected')]
+                via = [c for c in p.calls() if c['res'] in leave_only and c['args'] and q.is_param(c['args'][0], 1)]
+                tw = [x for x in p.writes() if x['place'] == q.self_field('timer_token')]
                 clr = [c for c in p.calls() if c['res'] == 'probe::Probe::clear' and c['args'][0] == ('ref', q.self_field('probe'), True)]
+                badv = []
+                for t in tw:
+                    v = t['value']
+                    good = v[0] == 'call' and calls[v[1]]['res'] == 'core::num::<impl u8>::wrapping_add' and \
+                        q.is_self_field_load(calls[v[1]]['args'][0], 'timer_token') and calls[v[1]]['args'][1][2] == 1
+                    if not good:
+                        badv.append(t)
+                rows.append((p, cs, leaving, via, tw, clr, badv))
+            results[fn] = (b, rows)
+        new_lo = set()
+        for fn, (b, rows) in results.items():
+            lv = [r for r in rows if r[2] or r[3]]
+            if lv and all(not r[4] and not r[5] for r in lv) and not b.reachable:
+                new_lo.add(fn)
+        if new_lo == leave_only:
+            break
+        leave_only = new_lo
+    n = 0
+    for fn, (b, rows) in sorted(results.items()):
+        for (p, cs, leaving, via, tw, clr, badv) in rows:
+            for t in tw:
+                rep.check(t not in badv, 'C13-R1', fn, 'token := wrapping_add(token, 1)', site=t['span'], construct='bump-value')
+            if fn in leave_only:
+                continue        # judged in its callers
+            if leaving or via:
+                n += 1
                 rep.check(len(tw) == 1 and len(clr) == 1, 'C13-R1', fn, 'leaving Connected (or resetting) bumps the epoch exactly '
-                          'once and clears the probe', site=leaving[0]['span'], construct='leave-bumps')
+                          'once and clears the probe', site=(leaving[0]['span'] if leaving else via[0]['span']),
+                          construct='leave-bumps')
+            elif tw:
+                rep.violation('C13-R1', fn, 'bump-without-leaving', 'the timer token is bumped on a path that does not leave '
+                              'the Connected state: every running loop dies without a new epoch being started',
+                              site=tw[0]['span'])
             elif cs:
                 rep.check(not tw, 'C13-R1', fn, 'entering Connected does not change the epoch', construct='enter-keeps')
-    rep.floor('C13-R1', n, 3, 'functions leaving the Connected/initial state')
+    for fn in sorted(leave_only):
+        callers = eff.callers(fn)
+        rep.check(bool(callers) and all(c in results and c not in leave_only for c in callers), 'C13-R1', fn,
+                  'a private function that only leaves the Connected state is completed (bump + clear) by every caller',
+                  construct='leave-only', facts={'callers': callers})
+    rep.floor('C13-R1', n, 3, 'paths leaving the Connected/initial state')
 
 
 def arm_of(f, p, upto=None):
@@ -168,6 +210,26 @@ def r3_loops(ctx, f, rep):
                   'with the current token and the configured delays', construct='arm:%s' % sorted(cfgs.items()),
                   facts={'kinds': kinds})
     rep.floor('C13-R3', n, 8, 'become_connected paths (2^3 configurations)')
+    # the probe tick itself: with a current token and while Connected the handler always goes into probe_random_member
+    # (which re-arms, below) - nothing else (a member count, a flag) can end the loop
+    hb0 = f.fn('Foca::handle_timer')
+    nt = 0
+    for p in ctx.paths(f, hb0, 'none'):
+        arm = arm_of(f, p)
+        if arm != {'ProbeRandomMember'} or p.end != 'return':
+            continue
+        tok = token_ok(p, len(p.events), 'ProbeRandomMember')
+        conn = None
+        for c in p.conds():
+            es = q.eq_sides(c['expr'])
+            if es and q.is_self_field_load(es[1], 'connection_state') and q.is_variant(es[2], 'ConnectionState', 'Connected'):
+                conn = (q.cond_truth(c) == es[0])
+        if tok is True and conn is True:
+            nt += 1
+            rep.check(any(e['res'] == 'Foca::probe_random_member' for e in p.calls()), 'C13-R3', hb0.nname,
+                      'a current probe tick of a Connected instance always runs probe_random_member (which re-arms the loop)',
+                      construct='probe-tick-always-probes')
+    rep.floor('C13-R3', nt, 1, 'current-token Connected paths of the ProbeRandomMember arm')
     # probe_random_member: exactly one ProbeRandomMember on every normal path
     b = f.fn('Foca::probe_random_member')
     n = 0
